@@ -326,6 +326,9 @@ def check(ctx):
     d.check(srv_eps, oracle=srv_oracle, label="server-wiring")
     from . import c10
     d.check([["startup debug"], ["startup info"], ["startup -"], ["startup warn"], ["startup error"]], oracle=c10.startup_oracle, label="startup")
+    # what LoadConfig returns is what the file says (values, order, entries, files of any length)
+    from .. import cfgfid
+    cfgfid.check(ctx, d)
     # string values survive loading byte for byte (secrets and addresses with $, %, #, quotes, unicode)
     vals = []
     for i, (tok, addr, hdr, key) in enumerate([("Adm1n$2024", "http://localhost:8081", "X-Req", "$2y$10$abcdefgh"), ("$uperS3cret", "http://h:1/p?x=$y", "X-${NAME}", "k$1"),
